@@ -1,7 +1,7 @@
 (* C42 — proofs.  Part 1: list lemmas.  Part 2: the read paths of BufferedFile over ANY stream
    satisfying a prefix-reader contract (reused by C27).  Part 3: the channel-like stream:
    op sequences, write completeness, line buffering. *)
-From PV Require Import Bytes C42.
+From PV Require Import Bytes C42 C42_gen.
 From Coq Require Import Lia ZifyBool.
 Open Scope Z_scope.
 
@@ -1080,3 +1080,19 @@ Lemma p_initial_state :
 Proof.
   intros. split; [apply set_mode_bufsize|]. split; [apply set_mode_winv|]. split; reflexivity.
 Qed.
+
+(* ---- tie to the source: constants and the mode / buffering table of _set_mode, regenerated from
+   paramiko/file.py on every run (coq/Gen/C42_gen.v, gen/c42.py) ---- *)
+Definition flags_of {S} (f : bf S) : Z :=
+  (if fl_read f then G_FLAG_READ else 0) + (if fl_write f then G_FLAG_WRITE else 0) +
+  (if fl_append f then G_FLAG_APPEND else 0) + (if fl_buffered f then G_FLAG_BUFFERED else 0) +
+  (if fl_linebuf f then G_FLAG_LINE_BUFFERED else 0).
+Definition set_mode_row_ok (row : (bool * bool * bool * bool) * Z * Z * (Z * Z * Z)) : bool :=
+  let '((r, w, a, p), bs, size, (fl, bsz, ps)) := row in
+  let f := set_mode r w a p bs size tt in
+  (flags_of f =? fl) && (bufsize f =? bsz) && (pos f =? ps) && (realpos f =? ps) &&
+  (if a then fsize f =? size else true).
+Lemma source_constants :
+  DEFAULT_BUFSIZE = G_DEFAULT_BUFSIZE /\ LF = G_LF /\
+  forallb set_mode_row_ok G_set_mode_table = true /\ (100 < length G_set_mode_table)%nat.
+Proof. split; [reflexivity|]. split; [reflexivity|]. split; [vm_compute; reflexivity|vm_compute; lia]. Qed.
